@@ -15,7 +15,7 @@ CHECKS = {
                      "independence of other jobs and set-algebra laws are asserted directly. Every harness must come back 'Confirmed over all paths'.",
                 note="Trusted: CrossHair path enumeration, the oracle vflib/refs.match (Python == semantics, operators need the key present). Corpus injected at Project._build_index/_job_dirs. Outside: $where, arbitrary regexes, symbolic floats, >2 jobs (3 in thorough).",
                 ref="DESIGN.md §4 C06"),
-    "C14": dict(tech="SMT-backed symbolic execution (CrossHair+z3) of DocSync.ByKey/update against a reference merge; real-file-system sync harnesses with symbolic configuration",
+    "C14": dict(tech="SMT-backed symbolic execution (CrossHair+z3) of DocSync.ByKey/update against a reference merge; real-file-system sync harnesses with symbolic configuration (conflicting files x strategies, document conflicts x key strategies, rollback)",
                 text="Bounded proof: for every presence/equality/mapping state of 4 document keys at depths 1-3, every verdict table of the key strategy over full dotted keys and strategy kinds None/predicate/regex, "
                      "the real ByKey merge equals the reference merge (overwritten iff differing and selected; dst-only keys kept; DocumentSyncConflict names exactly the conflicting full keys; strategy only asked about full keys).",
                 note="Trusted: CrossHair path enumeration; the reference merge in harness/C14.py. Outside: src mapping vs dst scalar under one key, FileSync.Ask.",
@@ -81,6 +81,17 @@ CHECKS = {
                      "check() passes afterwards, exactly the requested jobs exist, documents hold a writer's value, completed writes are visible to later reads.",
                 note="Trusted: MemFS atomic steps; actors are coroutine threads sharing only MemFS (per-actor lock table / temp names). Outside: >3 actors, same-document writers, schedules beyond the pre-emption bound, reading state points of jobs that are concurrently being created.",
                 ref="DESIGN.md §4 C12"),
+    "C13": dict(tech="SMT-backed symbolic execution (CrossHair+z3) over the configuration space of real Project.sync / Job.sync calls on the real file system (per-path scratch projects), post-conditions on byte snapshots",
+                text="Bounded proof: for every project pair over 2 state points (all presence combinations), file states of a top-level and a nested file (absent/one-sided/identical/different, mtime relation), a common sub-directory, 7 job-document and 3 project-document states, "
+                     "crossed with strategy x recursive x exclude x entry point (file family) and doc_sync x entry point (document family): whenever the sync returns, every selected source job is in the destination with the same state point, every non-excluded source-only file is copied byte-identically, "
+                     "destination-only files and document keys are unchanged, the source is byte-identical, no backup files remain, and a second identical sync changes nothing.",
+                note="Trusted: tmpfs semantics; CrossHair path enumeration over the configuration integers (the sync code runs natively per path). Outside: symlink/permission options, Ask, >2 jobs.",
+                ref="DESIGN.md §4 C13"),
+    "C15": dict(tech="SMT-backed symbolic execution (CrossHair+z3) over the configuration space of real sync calls on the real file system with a twin real run per path",
+                text="Bounded proof: dry_run=True through Project.sync / Job.sync / sync_projects / sync_jobs leaves both trees byte- and mtime-identical and ends in the same outcome class (returns / FileSyncConflict / DocumentSyncConflict) as a real run on an identical pair, for pairs where files would be copied, jobs cloned and flat/nested documents merged; "
+                     "deep=True detects (and, with 'always', overwrites) differing files of equal size and mtime at top level and nested, at job and project level; excluded file names and unselected jobs are never created or modified; parallel in {2, True} yields the sequential tree.",
+                note="Trusted: tmpfs semantics. Outside: pool-internal thread interleavings, directory-name exclude patterns.",
+                ref="DESIGN.md §4 C15"),
 }
 NOT_YET = {}
 
